@@ -156,6 +156,10 @@ func c05Body(c *core.Ctx, e *liquid.Engine, b string, i int) {
 	if i%3 == 2 {
 		expPre, expPost = "1", ""
 	}
+	if i%7 == 3 && !strings.Contains(b, "{") { // (a body with a brace could swallow the object that follows the end tag)
+		// neighbours whose trim markers face the raw/comment tags: the markers act on literal text, not on a raw body
+		pre, post, expPre, expPost = "{{ 1 -}}", "{{- 2 }}", "1", "2"
+	}
 	if bodyAdmitted("{% raw %}", b, "{% endraw %}", "endraw") {
 		src := pre + "{% raw %}" + b + "{% endraw %}" + post
 		r := core.Run(e, src, nil)
@@ -219,6 +223,17 @@ func c05Value(c *core.Ctx, e *liquid.Engine, v string, i int) {
 		check("captured", "{% capture x %}{{ v }}{% endcapture %}{{ x }}", map[string]any{"v": v})
 	case 4:
 		check("nested", "{{ m.k[0] }}", map[string]any{"m": map[string]any{"k": []any{v}}})
+	}
+	// next to a neighbour's whitespace-control marker: markers act on literal text, a value is emitted exactly
+	switch (i / 5) % 4 {
+	case 0:
+		check("after-right-trim", "{{ e -}}{{ v }}", map[string]any{"v": v, "e": ""})
+	case 1:
+		check("before-left-trim", "{{ v }}{{- e }}", map[string]any{"v": v, "e": ""})
+	case 2:
+		check("between-trimming-tags", "{%- if t -%}{{ v }}{%- endif -%}", map[string]any{"v": v, "t": true})
+	case 3:
+		check("in-trimmed-loop", "{% for x in one -%}{{ v }}{%- endfor %}{%- assign q = 1 -%}", map[string]any{"v": v, "one": []any{1}})
 	}
 	// literal spelling, when the value can be quoted and the object still tokenises as one object
 	for _, q := range []string{`"`, `'`} {
